@@ -273,6 +273,17 @@ def run(tier):
                 e2 = edges + [e for e in extra if e not in edges]
                 jobs.append((cli, ("chain", length, order, len(extra)), length, e2, [rnd.randrange(len(CTX)) for _ in e2], False, rnd.randint(1, 2),
                              seeds_fixed[: max(4, nseeds // 2)], False, ()))
+    # graphs with many more types than the statement's small scope (real projects have dozens): the ordering routines behave
+    # differently above certain sizes (insertion sort below, partitioning above), the statement does not
+    for n_big in ((33, 40, 64) if tier == "quick" else (33, 34, 40, 48, 64, 90, 130)):
+        for variant in range(2):
+            perm = list(range(n_big))
+            rnd.shuffle(perm)
+            e_big = []
+            for a_ in range(n_big - 1):
+                for b_ in rnd.sample(range(a_ + 1, n_big), min(n_big - a_ - 1, rnd.randint(0, 2) if variant else 1)):
+                    e_big.append((perm[a_], perm[b_]))
+            jobs.append((cli, ("large", n_big, variant), n_big, e_big, [rnd.randrange(6) for _ in e_big], True, 3, seeds_fixed[:3], False, ()))
     res = common.pmap(run_case, jobs, chunksize=2)
     total_orders = 0
     multi = 0
